@@ -397,9 +397,14 @@ def rule_seed(F, R):
         ok = len(rngs) == 1
         why = "expected exactly one make_rng"
         if ok:
-            a = [x for x in walk(rngs[0]) if x["k"] == "ref" and x.get("dk") in ("var", "parm")]
+            arg = skip(args(rngs[0])[0]) if args(rngs[0]) else None
+            while arg is not None and arg["k"] in ("cast", "paren", "construct", "initlist", "temp", "bind") and len(arg.get("c", ())) == 1:
+                arg = skip(arg["c"][0])
+            a = [arg] if arg is not None and arg["k"] == "ref" and arg.get("dk") in ("var", "parm") else []
             ok = len(a) == 1
-            why = "make_rng() is not seeded"
+            why = "make_rng() is not seeded" if arg is None else \
+                "make_rng is given `%s`, not the seed itself: for some seed values the engine is seeded with something else or not at all (an empty seed_t falls " \
+                "back to std::random_device), so equal seeds no longer give equal splits" % pp(args(rngs[0])[0])[:80]
             if ok:
                 var, _ = find_var(f, a[0]["d"])
                 ok = var is not None and var.get("c") and parameter_name(var["c"][0]) == "splitter::seed"
